@@ -152,7 +152,7 @@ def check(run, prog, tier):
     run.rule("C15-a", "every file-system sink takes a path that is check_valid_path-approved (non-NULL tested, write flag for mutating sinks), legal_path-guarded, driver-internal, or a helper parameter all of whose callers pass such a value", 45)
     run.rule("C15-a2", "every call site feeding a helper parameter that reaches a sink passes an approved path", 8)
     run.rule("C15-b", "compile-time paths: include dirs admitted by legal_path; inc_open scans the name for '..' before joining it to an include dir", 3)
-    run.rule("C15-c", "check_valid_path: non-NULL result only after the master apply with (path, object, operation) and legal_path(result) true; master's 0 denies", 5)
+    run.rule("C15-c", "check_valid_path: non-NULL result only after the (raising) master apply with (path, object, operation) and legal_path(result) true; master's 0 denies", 6)
 
     funcs = list(prog.functions())
     byname = prog.by_name()
@@ -413,8 +413,17 @@ def check(run, prog, tier):
     cvp = byname["check_valid_path"][0]
     run.saw(cvp)
     a = StatAwareAnalysis(cvp, {}, protos).run()
-    apply_blocks = [b.id for b, i, n in cvp.calls("apply_master_ob")]
-    run.need(apply_blocks, "apply_master_ob call in check_valid_path")
+    APPLIES = ("apply_master_ob", "safe_apply_master_ob", "apply", "safe_apply")
+    policy_calls = [(b, i, n) for b, i, n in cvp.calls(APPLIES)
+                    if n.get("args") and (facts.any_in_macro(n["args"][0], "APPLY_VALID_WRITE") or facts.any_in_macro(n["args"][0], "APPLY_VALID_READ"))]
+    run.need(policy_calls, "valid_read/valid_write apply in check_valid_path")
+    apply_blocks = [b.id for b, i, n in policy_calls]
+    swallowing = [n for b, i, n in policy_calls if n["fn"].startswith("safe_")]
+    run.ob("C15-c", "cvp:apply:raising", not swallowing,
+           "the policy apply is apply_master_ob: an error inside valid_read/valid_write unwinds the efun" if not swallowing else
+           "%s swallows errors and returns 0, which check_valid_path treats as 'no policy defined: allow'" % swallowing[0]["fn"],
+           cvp.file, (swallowing[0] if swallowing else policy_calls[0][2]).get("l"), cvp.name,
+           what="check_valid_path: a valid_read/valid_write call that fails with an error counts as approval")
     nonnull_returns = []
     for b, i, e in cvp.elements():
         if e.get("k") == "Return" and "e" in e and const_val(e["e"]) != 0:
@@ -441,7 +450,7 @@ def check(run, prog, tier):
             def first_apply(bid):
                 for e in cvp.blocks[bid].el:
                     for n in facts.calls_in(e):
-                        if n.get("fn") == "apply_master_ob":
+                        if n.get("fn") in APPLIES:
                             return n
                 return None
             t, f_ = (first_apply(s) if s is not None else None for s in blk.succ)
